@@ -915,6 +915,32 @@ def r_select_never_empty(ctx: Ctx, rule: str) -> None:
                     run.ok(rule, inst)
     if n_sites < 3:
         raise AnalysisError(f"only {n_sites} SELECT constructions from a starred list were found in sql.Engine (select_items, get_join_identity_payload, get_doomed_payload expected)")
+    # ... and every SELECT that select_items builds names its FROM clause: a list of literals only (the placeholder)
+    # refers to no table, and `SELECT 1` without FROM is one row whatever the table holds
+    si = eng.methods.get("select_items")
+    if si is None:
+        raise AnalysisError("sql.Engine.select_items is missing")
+    from_param = [q for q in si.params if q != "self"][1]
+    for pi, p in enumerate(ctx.paths(si)):
+        if p.outcome != "return":
+            continue
+        sl = backward_slice(p, [p.value])
+        named = any(call_attr(c) == "select_from" and c.args and src(c.args[0]) == from_param for c in sl.calls)
+        conditional = any(s.kind == "cond" for s in p.steps)
+        inst = f"select_items:select_from:path{pi}"
+        if named:
+            run.ok(rule, inst)
+        else:
+            run.fail(
+                rule,
+                inst,
+                f"a path of select_items returns a SELECT without `.select_from({from_param})`"
+                + (" (the FROM clause is added under a condition)" if conditional else "")
+                + ": a select list that mentions no column of the table - the zero-column placeholder - then has no FROM at all and yields one row instead of one per row of the relation",
+                fi=si,
+                node=p.node,
+                details=describe(p),
+            )
     h = eng.methods.get("handle_empty_columns")
     if h is None:
         raise AnalysisError("sql.Engine.handle_empty_columns is missing")
@@ -931,3 +957,54 @@ def r_select_never_empty(ctx: Ctx, rule: str) -> None:
             run.ok(rule, f"handle_empty_columns:empty:path{pi}")
         else:
             run.fail(rule, f"handle_empty_columns:empty:path{pi}", f"a path on which `{lst}` may be empty does not append a labelled placeholder column to it", fi=h, node=p.node, details=describe(p))
+
+
+COLUMN_HOOKS = {
+    "extract_mapping": "the hook that turns SQL columns back into logical columns",
+    "select_items": "the hook that turns logical columns into SELECT-list entries",
+    "get_doomed_payload": "labels its NULL placeholders, then maps them back with extract_mapping",
+}
+
+
+def r_logical_column_hooks(ctx: Ctx, rule: str) -> None:
+    """A subclass with its own logical-column type overrides extract_mapping / select_items; code that pairs tags with
+    SQL columns by hand bypasses the override."""
+    run, m = ctx.run, ctx.m
+    run.rule(
+        rule,
+        "tags are paired with SQL column names only inside the logical-column hooks (extract_mapping, select_items, and "
+        "get_doomed_payload's labels): every other method of the SQL engine obtains its tag -> column mapping from "
+        "self.extract_mapping(...) or a payload, never by calling get_identifier itself - an engine whose logical columns "
+        "are not single SQL columns (the documented extension) overrides those hooks and nothing else",
+        expected_min=4,
+    )
+    eng = ctx.cls(SQL_ENGINE, "Engine")
+    n = 0
+    for f in eng.methods.values():
+        calls = [c for c in iter_calls(f.node) if call_attr(c) == "get_identifier"]
+        refs = [x for x in ast.walk(f.node) if isinstance(x, ast.Attribute) and x.attr == "get_identifier" and not any(x is c.func for c in calls)]
+        for c in calls + refs:
+            n += 1
+            inst = f"{f.qualname}:get_identifier"
+            if f.name in COLUMN_HOOKS or f.name == "get_identifier":
+                run.ok(rule, inst)
+            else:
+                run.fail(
+                    rule,
+                    inst,
+                    f"{f.qualname} pairs tags with SQL column names itself (`{src(c)[:60]}`) instead of going through self.extract_mapping / self.select_items: "
+                    "an engine subclass with a custom logical-column type, which overrides exactly those hooks, gets a KeyError (or the wrong columns) as soon as this code runs",
+                    fi=f,
+                    node=c,
+                )
+    if n < 3:
+        raise AnalysisError("get_identifier is hardly used any more; the logical-column hooks changed shape")
+    # and the two places that rebuild a mapping from a FROM clause do go through the hook
+    for fname in ("to_payload", "_select_to_executable", "get_doomed_payload"):
+        f = eng.methods.get(fname)
+        if f is None:
+            raise AnalysisError(f"sql.Engine.{fname} is missing")
+        if any(call_attr(c) == "extract_mapping" and isinstance(c.func, ast.Attribute) and src(c.func.value) == "self" for c in iter_calls(f.node)):
+            run.ok(rule, f"{fname}:extract_mapping")
+        else:
+            run.fail(rule, f"{fname}:extract_mapping", f"{fname} no longer rebuilds its column mapping with self.extract_mapping(...)", fi=f)
